@@ -33,7 +33,7 @@ m = {
               "baseline_off_cmd": "cd /repo && /venv/bin/python -m pytest -ra -q -p no:cacheprovider --timeout=900 --continue-on-collection-errors",
               "source_commits": [], "add_only": True},
     "engines": [{"name": "lean4-model", "path": "lean/", "serves_properties": [c["property_id"] for c in checks],
-                 "kind_free_text": "Lean 4 model + theorems (lake project MetapypeModel), tables regenerated from /repo by translator/gen_tables.py, "
+                 "kind_free_text": "Lean 4 model + theorems (lake project MetapypeModel), tables regenerated from /repo on every run by translator/gen_tables.py (introspection of the loaded package and probes of the public validator, translator/introspect.py; ast write-site inventory, translator/write_sites.py), "
                                    "hand-written algorithmic model tied to the code by a differential correspondence check (harness/, JSON line protocol to the compiled Lean driver)"}],
     "checks": checks,
     "not_applicable": na,
